@@ -766,6 +766,9 @@ class Corr:
                 # Fill the two timeslices in the middle of the lattice with their predecessors
                 elif variant == 'sinh' and t in [self.T / 2, self.T / 2 - 1]:
                     newcontent.append(newcontent[-1])
+                # For odd T the two timeslices next to the midpoint have arguments of opposite sign: the sinh ratio is -1 for every mass
+                elif variant == 'sinh' and (t - self.T / 2) * (t + 1 - self.T / 2) < 0:
+                    newcontent.append(None)
                 elif self.content[t][0].value / self.content[t + 1][0].value < 0:
                     newcontent.append(None)
                 else:
